@@ -14,6 +14,9 @@
 #include <string>
 #include <vector>
 #include <unistd.h>
+#include <sys/wait.h>
+#include <csignal>
+#include <functional>
 #include <rapidjson/document.h>
 
 namespace vh {
@@ -78,6 +81,12 @@ inline std::vector<std::string> ReadLines(const char* path)
 	return lines;
 }
 
+inline FILE*& TraceOut() { static FILE* f = stdout; return f; }
+inline std::string& TerminateContext() { static std::string s; return s; }
+inline size_t& RunIndex() { static size_t i = 0; return i; }
+inline size_t& SeekRefusedGlobal() { static size_t i = 0; return i; }
+
+
 //-----------------------------------------------------------------------------
 // Stream test doubles
 //-----------------------------------------------------------------------------
@@ -123,7 +132,7 @@ protected:
 		if (gptr() == egptr() && egptr() == eback()) cur = static_cast<off_type>(mPos);
 		if (dir == std::ios_base::cur && off == 0) return pos_type(cur);   // tellg() is always allowed
 		++seeks;
-		if (!mSeekable) { ++seekRefused; return pos_type(off_type(-1)); }
+		if (!mSeekable) { ++seekRefused; ++SeekRefusedGlobal(); return pos_type(off_type(-1)); }
 		off_type target = dir == std::ios_base::beg ? off : dir == std::ios_base::cur ? cur + off : static_cast<off_type>(mData.size()) + off;
 		if (target < 0 || static_cast<size_t>(target) > mData.size()) return pos_type(off_type(-1));
 		mPos = static_cast<size_t>(target);
@@ -178,16 +187,71 @@ inline StreamHolder MakeStream(const std::string& kind, const std::string& data,
 //-----------------------------------------------------------------------------
 // std::terminate must be an observation, not the end of the trace
 //-----------------------------------------------------------------------------
-inline FILE*& TraceOut() { static FILE* f = stdout; return f; }
-inline std::string& TerminateContext() { static std::string s; return s; }
-
 inline void InstallTerminateHandler()
 {
 	std::set_terminate([] {
-		fprintf(TraceOut(), "{\"e\":\"Terminate\",\"ctx\":\"%s\"}\n", JsonEscape(TerminateContext()).c_str());
+		fprintf(TraceOut(), "{\"e\":\"Terminate\",\"run\":%zu,\"refused\":%s,\"ctx\":\"%s\"}\n", RunIndex(), SeekRefusedGlobal() ? "true" : "false", JsonEscape(TerminateContext()).c_str());
 		fflush(TraceOut());
 		_exit(42);
 	});
+}
+
+
+//-----------------------------------------------------------------------------
+// Crash-contained execution: runs fn(0..total) in forked children; a child that dies (terminate -> 42, watchdog
+// -> 43, signal) is replaced by a new one that continues after the offending run.  The offending run is logged as
+// an observation line {"e":"Terminate"|"Hang"|"Crash","run":k}.
+//-----------------------------------------------------------------------------
+inline int ForkedRunner(size_t total, const std::function<void(size_t)>& fn, unsigned watchdogSeconds = 20)
+{
+	size_t next = 0;
+	while (next < total)
+	{
+		int fds[2];
+		if (pipe(fds) != 0) return 3;
+		fflush(stdout);
+		const pid_t pid = fork();
+		if (pid == 0)
+		{
+			close(fds[0]);
+			InstallTerminateHandler();
+			signal(SIGALRM, [](int) {
+				fprintf(stdout, "{\"e\":\"Hang\",\"run\":%zu,\"refused\":%s,\"ctx\":\"%s\"}\n", RunIndex(), SeekRefusedGlobal() ? "true" : "false", JsonEscape(TerminateContext()).c_str());
+				fflush(stdout);
+				_exit(43);
+			});
+			for (size_t r = next; r < total; ++r)
+			{
+				RunIndex() = r;
+				SeekRefusedGlobal() = 0;
+				// tell the parent which run is in flight (so that a crash by signal can be attributed)
+				const uint64_t cur = r;
+				if (write(fds[1], &cur, sizeof cur) != sizeof cur) _exit(3);
+				alarm(watchdogSeconds);
+				fn(r);
+				alarm(0);
+				fflush(stdout);
+			}
+			fflush(stdout);
+			_exit(0);
+		}
+		close(fds[1]);
+		uint64_t last = next, cur = 0;
+		bool any = false;
+		while (read(fds[0], &cur, sizeof cur) == sizeof cur) { last = cur; any = true; }
+		close(fds[0]);
+		int status = 0;
+		waitpid(pid, &status, 0);
+		if (WIFEXITED(status) && WEXITSTATUS(status) == 0) return 0;
+		if (!any) last = next;
+		if (!(WIFEXITED(status) && (WEXITSTATUS(status) == 42 || WEXITSTATUS(status) == 43)))
+		{
+			fprintf(stdout, "{\"e\":\"Crash\",\"run\":%zu,\"status\":%d}\n", static_cast<size_t>(last), status);
+			fflush(stdout);
+		}
+		next = static_cast<size_t>(last) + 1;
+	}
+	return 0;
 }
 
 }  // namespace vh
